@@ -267,6 +267,41 @@ def package_errors(backend: str, pkg: Dict[str, Any]) -> List[Tuple[str, str]]:
     return out
 
 
+def token_errors(backend: str, prog) -> List[str]:
+    """cms_miniaod: every token a retrieval reads is declared exactly once as a class member and initialised in the
+    constructor (booking) code."""
+    if backend != "cms_miniaod":
+        return []
+    used = set()
+
+    def walk(b):
+        for st in b[2]:
+            if st[0] == "fetch":
+                for ln in st[5] if len(st) > 5 and isinstance(st[5], list) else []:
+                    m = re.search(r"getByToken\((\w+),", str(ln))
+                    if m:
+                        used.add(m.group(1))
+            elif st[0] == "for":
+                walk(st[3])
+            elif st[0] == "if":
+                walk(st[2])
+                for e in st[3]:
+                    walk(e)
+            elif st[0] == "block":
+                walk(st[1])
+
+    walk(prog[4])
+    members = [n for t, n in prog[0] if t.startswith("edm::EDGetTokenT<")]
+    inits = {m.group("tok") for m in (semrun._TOKEN_INIT.match(ln) for ln in prog[3]) if m}
+    out = []
+    for t in sorted(used):
+        if members.count(t) != 1:
+            out.append(f"token {t} read by getByToken is declared {members.count(t)} time(s) as a class member")
+        if t not in inits:
+            out.append(f"token {t} read by getByToken is never initialised with consumes<>")
+    return out
+
+
 def booking_errors(backend: str, prog) -> List[str]:
     """Booking lines that are none of the C++ statements a backend's booking consists of."""
     bad = []
@@ -308,9 +343,13 @@ def _key_for(kind: str, name: str, feat: set) -> str:
     return f"c02:{kind}:{b}"
 
 
-def run_case(model: core.Model, backend: str, src: str, feat: set, uni: qgen.Universe, md) -> Result:
+def _erase(lines) -> List[str]:
+    return [re.sub(r"\d+", "#", str(x).rstrip()) for x in lines if str(x).strip()]
+
+
+def run_case(model: core.Model, backend: str, src: str, feat: set, uni: qgen.Universe, md, write_again: bool = False) -> Result:
     r = Result(backend, src, feat)
-    c = semrun.translate(backend, src, md, model)
+    c = semrun.translate(backend, src, md, model, write_again=write_again)
     r.status = c.status
     r.note = c.note
     if c.status == "refused":
@@ -318,6 +357,25 @@ def run_case(model: core.Model, backend: str, src: str, feat: set, uni: qgen.Uni
     r.raw = {k: [str(x) for x in c.pkg["slots"].get(k, [])] for k in ("query_code", "book_code", "class_decl")}
     for cls, what in package_errors(backend, c.pkg):
         r.findings.append(("c02:package:" + cls, what))
+    if write_again:
+        # the same transformed query rendered a second time (a second output directory, a retry after a late failure): what
+        # is returned is again a complete, self-consistent package (it need not be the same text: declarations made by the
+        # query's metadata are gone after the first rendering, which is C07's subject)
+        if "error_again" not in c.pkg:
+            try:
+                prog2, _ = cxx.parse_program(backend, c.pkg["slots_again"])
+                for t in token_errors(backend, prog2):
+                    r.findings.append(("c02:write-again:token", "second rendering of the same translated query: " + t))
+                res2 = model.call("c02.check", [prog2, method_table(uni)])
+                if res2[0] == "ok":
+                    e2 = {x[0]: list(x[1]) for x in res2[1:]}
+                    for kind in ("unique_decls", "well_scoped", "branch_members"):
+                        for n in sorted(set(e2[kind])):
+                            r.findings.append((f"c02:write-again:{kind}:{base(n)}", f"second rendering of the same translated query: {kind} fails for {n}"))
+            except cxx.ParseError:
+                pass  # the first rendering's parse decides (below)
+    for t in (token_errors(backend, c.prog) if c.prog is not None else []):
+        r.findings.append(("c02:token", t))
     if c.status == "unparsed":
         if "else without a preceding if" in c.note:
             r.findings.append((_key_for("else", "", r.feat) if "agg_summand_outer_only" in r.feat else "c02:else-without-if",
@@ -518,7 +576,7 @@ def check(tier: str, seed: int, t0: float, build: core.BuildStatus) -> int:
     if model is not None:
         for be, uni, src, feat, ops, origin in _cases(tier, rng):
             unis[be] = uni
-            r = run_case(model, be, src, feat, uni, metadata(uni))
+            r = run_case(model, be, src, feat, uni, metadata(uni), write_again=(origin == "seeded" or oc.evaluations % 5 == 0))
             r.ops = ops
             results.append(r)
             oc.evaluations += 1
